@@ -199,6 +199,33 @@ def check_canonical(case):
         mapping2 = dict(mapping2)
         mapping2[extra] = (format(0xBEEF, '016b'), [])
         steps.append(('key-added', mapping2))
+    # values the writer encodes in a few bits although they are None / falsy: addr_none (00) among addresses, "no reference" (0)
+    # among optional references - leaves like any other, the tree is the canonical tree of those bit strings
+    if len(mapping) <= 12 and n + 300 <= 1023:
+        from pytoniq_core.boc.address import Address
+        hma = HashMap(n).with_address_values()
+        hmm = HashMap(n, value_serializer=lambda src, dest: dest.store_maybe_ref(src))
+        mpa, mpm = {}, {}
+        for k, (vb, _) in mapping.items():
+            v = int(vb, 2)
+            if v % 3 == 0:
+                hma.set(int(k, 2), None)
+                mpa[k] = ('00', [])
+            else:
+                acc = hashlib.sha256(vb.encode()).digest()
+                hma.set(int(k, 2), Address((v % 5 - 2, acc)))
+                mpa[k] = ('100' + format((v % 5 - 2) & 0xFF, '08b') + ''.join(format(x, '08b') for x in acc), [])
+            if v % 2 == 0:
+                hmm.set(int(k, 2), None)
+                mpm[k] = ('0', [])
+            else:
+                leafc = rc.RCell(vb, [], False)
+                hmm.set(int(k, 2), dag.lib_from_rcell(leafc))
+                mpm[k] = ('1', [leafc])
+        for what, h_, mp_ in (('address-or-addr_none', hma, mpa), ('maybe-ref', hmm, mpm)):
+            ok, c_ = call(h_.serialize)
+            if not ok or c_ is None or c_.hash != refdict.build(mp_, n).repr_hash():
+                return Fail(f'hash-differs-from-canonical-tree/values-{what}', f'n={n} keys={sorted(mp_)[:4]}: {c_!r}'[:300])
     # values that are mutable objects of the caller, changed IN PLACE between two serialisations of the same map object
     if len(mapping) <= 8:
         boxes = {int(k, 2): [int(vb, 2)] for k, (vb, _) in mapping.items()}
@@ -271,6 +298,29 @@ def check_parsers(case):
             return Fail(f'parser-raises/{tag}/{type(got).__name__}', f'{name}: {exc_sig(got)}: {got!r} n={n} keys={sorted(mapping)[:4]}')
         if got != exp:
             return Fail(f'parser-result-differs/{tag}', f'{name}: n={n} expected {sorted(exp.items())[:5]} got {sorted(got.items())[:5] if isinstance(got, dict) else got!r}')
+    # a dictionary whose ROOT cell is a pruned branch, stored as an optional reference in front of another dictionary and a marker:
+    # whatever is reported for the pruned one, the fields behind it are read from where they are
+    if exp and cell.type_ == -1:
+        pr = dag.lib_from_rcell(rc.pruned_branch_of(ref, 1 + len(exp) % 3)) if ref.level() == 0 else None
+        if pr is not None:
+            marker = Builder().store_uint(0xC0FFEE, 24).end_cell()
+            for rd_name in ('load_dict', 'preload+load'):
+                s_ = Builder().store_dict(pr).store_dict(cell).store_ref(marker).end_cell().begin_parse()
+                if rd_name == 'load_dict':
+                    ok, first = call(s_.load_dict, n, None, des)
+                else:
+                    call(s_.preload_dict, n, None, des)
+                    ok, first = call(s_.load_dict, n, None, des)
+                if not ok:
+                    return Fail(f'parser-raises/pruned-root/{type(first).__name__}', f'{rd_name}: {exc_sig(first)}: {first!r}')
+                ok, second = call(s_.load_dict, n, None, des)
+                if not ok or second != exp:
+                    return Fail('parser-result-differs/dictionary-behind-a-pruned-one', f'{rd_name}: n={n}: the dictionary that follows a wholly '
+                                f'pruned one reads as {second if not ok else (sorted(second.items())[:4] if isinstance(second, dict) else second)!r}')
+                ok, third = call(s_.load_ref)
+                if not ok or third.hash != marker.hash or s_.remaining_bits or s_.remaining_refs:
+                    return Fail('parser-result-differs/field-behind-a-pruned-dictionary', f'{rd_name}: n={n}: {third!r}, '
+                                f'{s_.remaining_bits} bits / {s_.remaining_refs} refs left')
     # a map READ from any valid encoding and written again is the canonical tree of that map (whatever label kinds the source used)
     if exp:
         try:
